@@ -61,3 +61,14 @@ PROP_UNITS = {
     'C16': {'verus': ['int_prim', 'int_add', 'int_modadd']},
     'C19': {'verus': ['int_prim', 'int_add', 'int_modadd']},
 }
+
+# 32-bit word build of the conversion paths (C19)
+KANI['int_conv_w32'] = {
+    'package': 'dashu-int', 'target': 'integer/src/convert.rs', 'file': 'int_conv_w32.rs', 'word': 32,
+    'harnesses': {
+        'vk_int_conv_w32_u128_round_trip': {'kind': 'complete', 'domain': 'all u128 (Word = u32: 0..=4 words)'},
+        'vk_int_conv_w32_i128_round_trip': {'kind': 'complete', 'domain': 'all i128 (Word = u32)'},
+    },
+}
+PROP_UNITS['C19'] = dict(PROP_UNITS.get('C19', {}), kani=['int_conv_w32'])
+PROP_UNITS['C06'] = {'kani': ['int_conv_w32']}
